@@ -79,6 +79,11 @@ fn cond_shape(s: &Value, selftest: bool) -> Vec<Value> {
         _ => return skip("honest proofs".into()),
     };
     let pd = dummy.as_ref().ok().and_then(|dc| guarded(|| dummy_proof::<F, C, D>(dc, HashMap::new())).ok().and_then(|x| x.ok()));
+    // lookup openings: non-empty and pairwise different between the two proofs (and between zeta and g zeta)
+    let (oa, ob) = (&pa.proof.openings, &pb.proof.openings);
+    let lookup_info = json!({"lookups": !common.luts.is_empty(), "len_zs": oa.lookup_zs.len(), "len_zs_next": oa.lookup_zs_next.len(),
+        "distinct": !oa.lookup_zs.is_empty() && !oa.lookup_zs_next.is_empty() && oa.lookup_zs != ob.lookup_zs
+            && oa.lookup_zs_next != ob.lookup_zs_next && oa.lookup_zs != oa.lookup_zs_next && ob.lookup_zs != ob.lookup_zs_next});
     let mut out = vec![];
     // `conditionally_verify_proof_or_dummy` for this inner shape (the dummy verifier-data target must have the INNER cap height):
     // it must build, and accept iff (condition ? the given pair is valid : true)
